@@ -85,6 +85,27 @@ pub fn child(args: &[String]) {
     // "epipe <file>": the reader of the stream goes away (the stream becomes a pipe nobody reads: one append fails with
     // "broken pipe"), then the stream is re-pointed at a file: the same appender writes there as if nothing had
     // happened - what an appender does is decided when it is built, a failed write changes nothing (Console.tla)
+    // "nested <file>": the stream is re-pointed at a file; then one record is appended whose message logs another record
+    // through the same appender while it is being rendered (a Display implementation that logs).  The standard
+    // streams' locks are re-entrant: the inner record lands inside the outer one, and both are there in full
+    if args.get(5).map(|s| s == "nested").unwrap_or(false) {
+        use std::os::unix::io::AsRawFd;
+        struct Chatty<'a>(&'a dyn Append);
+        impl<'a> std::fmt::Display for Chatty<'a> {
+            fn fmt(&self, f: &mut std::fmt::Formatter<'_>) -> std::fmt::Result {
+                let _ = self.0.append(&log::Record::builder().level(log::Level::Info).target("tg").args(format_args!("inner")).build());
+                f.write_str("outer")
+            }
+        }
+        let f = std::fs::OpenOptions::new().create(true).append(true).open(&args[6]).expect("nested file");
+        unsafe {
+            libc::dup2(f.as_raw_fd(), fd);
+        }
+        if a.append(&log::Record::builder().level(log::Level::Error).target("tg").args(format_args!("{}", Chatty(a.as_ref()))).build()).is_err() {
+            std::process::exit(3);
+        }
+        return;
+    }
     if args.get(5).map(|s| s == "epipe").unwrap_or(false) {
         use std::os::unix::io::AsRawFd;
         let mut fds = [0i32; 2];
@@ -242,6 +263,13 @@ fn check_row(case: &Value, exe: &str, idx: usize) -> Option<Value> {
     } else {
         None
     };
+    let nested = if variant == 1 {
+        let s = crate::fsutil::Scratch::new("nested");
+        cmd.arg("-").arg("nested").arg(s.path().join("nested.txt"));
+        Some(s)
+    } else {
+        None
+    };
     let epipe = if variant == 2 {
         let s = crate::fsutil::Scratch::new("epipe");
         cmd.arg("-").arg("epipe").arg(s.path().join("after.txt"));
@@ -277,6 +305,14 @@ fn check_row(case: &Value, exe: &str, idx: usize) -> Option<Value> {
     });
     if !status.success() {
         return Some(json!({"what": "child failed or panicked", "status": status.to_string(), "stderr": String::from_utf8_lossy(&err)}));
+    }
+    if let Some(s) = &nested {
+        let text = std::fs::read_to_string(s.path().join("nested.txt")).unwrap_or_default();
+        let stripped = strip_sgr(&text).map(|x| x.0).unwrap_or_else(|_| text.clone());
+        let want = if case["writes"].as_bool().unwrap() { "<ERRtg|<INFtg|inner>outer>" } else { "" };
+        if stripped != want {
+            return Some(json!({"what": "a record whose message logs through the same appender while it is rendered", "expected_text": want, "actual": text}));
+        }
     }
     if let Some(s) = &epipe {
         let after = std::fs::read_to_string(s.path().join("after.txt")).unwrap_or_default();
